@@ -1,0 +1,11 @@
+//go:build verif
+
+package mem
+
+// VerifStop terminates the size enforcer goroutine, if any, so that a verification
+// harness can end an execution without leaking it (only compiled with the verif tag).
+func (s *Store) VerifStop() {
+	if s.incoming != nil {
+		close(s.incoming)
+	}
+}
